@@ -1,6 +1,9 @@
 import SimbodyModel.C15
 import SimbodyProofs.TreeDynAbs
 import SimbodyProofs.TreeDynRefine
+import SimbodyProofs.TreeDynSim
+import Mathlib.Algebra.Order.Field.Basic
+import Mathlib.Tactic.Linarith
 import Mathlib.Tactic.Ring
 import Mathlib.Tactic.FieldSimp
 import Mathlib.Tactic.LinearCombination
@@ -314,5 +317,82 @@ theorem shifted_bodies_kids : ∀ (cs : List (MBT K ι)), (shiftedKids cs).map (
 end
 
 end composite
+
+
+/-! ## the EXECUTED composite-body recursion (`TreeDyn.cbiIn`, `calcCompositeBodyInertiasInward`) computes the twin's `cbi` -/
+section cbi_sim
+open TreeDynAbs TreeDynAbs.MBT
+variable {F : Type} [Field F] [LinearOrder F] [IsStrictOrderedRing F]
+
+/-- twin body of an executed body (only `phi` and `M` matter for composite inertias) -/
+def decC (b : Body F) : Bd F I6 := absBd b [] [] [] Bias.zero
+
+def cbiRoot (t : Tr (Body F)) : Body F × SpI F := (Tr.mapUp cbiIn t).val
+
+theorem cbiRoot_mk (b : Body F) (cs : List (Tr (Body F))) : cbiRoot (Tr.mk b cs) = cbiIn b (cs.map cbiRoot) := by
+  simp only [cbiRoot, mapUp_val]; rfl
+
+mutual
+/-- every body of the executed tree has positive mass -/
+def PosMass : Tr (Body F) → Prop
+  | Tr.mk b cs => 0 < b.Mk.m ∧ PosMassL cs
+def PosMassL : List (Tr (Body F)) → Prop
+  | [] => True
+  | c :: cs => PosMass c ∧ PosMassL cs
+end
+
+theorem SpI.shift_m (a : SpI F) (s : V3 F) : (a.shift s).m = a.m := rfl
+theorem SpI.add_m (a b : SpI F) : (a.add b).m = a.m + b.m := rfl
+
+theorem foldl_SpI (l : List (Body F × SpI F)) : ∀ (a : SpI F), 0 < a.m → (∀ c ∈ l, 0 < c.2.m) →
+    (l.foldl (fun acc c => acc.add (c.2.shift c.1.l.neg)) a).toMat
+        = a.toMat + (l.map (fun c => (c.2.shift c.1.l.neg).toMat)).sum ∧
+    0 < (l.foldl (fun acc c => acc.add (c.2.shift c.1.l.neg)) a).m := by
+  induction l with
+  | nil => intro a ha _; simp [ha]
+  | cons x xs ih =>
+    intro a ha hl
+    have hx : 0 < x.2.m := hl x (by simp)
+    have hpos : 0 < (a.add (x.2.shift x.1.l.neg)).m := by rw [SpI.add_m, SpI.shift_m]; linarith
+    obtain ⟨h1, h2⟩ := ih (a.add (x.2.shift x.1.l.neg)) hpos (fun c hc => hl c (by simp [hc]))
+    refine ⟨?_, h2⟩
+    simp only [List.foldl_cons, List.map_cons, List.sum_cons, h1]
+    rw [spatialInertia_add_toMat a (x.2.shift x.1.l.neg) (by rw [SpI.shift_m]; exact ne_of_gt (by linarith))]
+    abel
+
+mutual
+/-- **composite-body inertias, every node of the executed recursion**: the structured `SpatialInertia` accumulated by
+`cbiIn` has the twin's composite inertia as its spatial matrix (all masses positive), hence — by
+`composite_is_subtree_sum` — it is the sum of the shifted inertias of all bodies of the subtree -/
+theorem sim_cbi : ∀ (t : Tr (Body F)), PosMass t →
+    (cbiRoot t).1 = t.val ∧ 0 < (cbiRoot t).2.m ∧ (cbiRoot t).2.toMat = cbi (absT decC t)
+  | Tr.mk b cs, hpos => by
+      simp only [PosMass] at hpos
+      obtain ⟨hk1, hk2⟩ := sim_cbi_kids cs hpos.2
+      obtain ⟨h1, h2⟩ := foldl_SpI (cs.map cbiRoot) b.Mk hpos.1 hk1
+      rw [cbiRoot_mk]
+      refine ⟨rfl, h2, ?_⟩
+      simp only [cbiIn, h1, List.map_map, Function.comp_def]
+      rw [hk2]
+      simp only [absT, cbi, decC, absBd]
+theorem sim_cbi_kids : ∀ (cs : List (Tr (Body F))), PosMassL cs →
+    (∀ c ∈ cs.map cbiRoot, 0 < c.2.m) ∧
+    (cs.map (fun c => ((cbiRoot c).2.shift (cbiRoot c).1.l.neg).toMat)).sum = cbiKids (absL decC cs)
+  | [], _ => by simp [absL, cbiKids]
+  | c :: cs, hpos => by
+      simp only [PosMassL] at hpos
+      obtain ⟨h1, h2, h3⟩ := sim_cbi c hpos.1
+      obtain ⟨k1, k2⟩ := sim_cbi_kids cs hpos.2
+      refine ⟨?_, ?_⟩
+      · intro x hx
+        simp only [List.map_cons, List.mem_cons] at hx
+        rcases hx with hx | hx
+        · rw [hx]; exact h2
+        · exact k1 x hx
+      · rw [List.map_cons, List.sum_cons, k2]
+        simp only [absL, cbiKids, spatialInertia_shift_toMat, h1, h3, bd_absT]
+        simp only [decC, absBd]
+end
+end cbi_sim
 
 end C15
